@@ -1136,6 +1136,78 @@ func funcsOf(fset *token.FileSet, path string) []*ast.FuncDecl {
 	return out
 }
 
+// metricsRows: for every package-level metric vector of metrics.go: declared number of labels, and the number of
+// label values handed over at every use in the package (Inc(labels...), Add(v, labels...), Observe(v, labels...)).
+func metricsRows(fset *token.FileSet, dir string) []string {
+	decl := map[string]int{}
+	var order []string
+	mf, err := parser.ParseFile(fset, filepath.Join(dir, "metrics.go"), nil, 0)
+	if err != nil {
+		return []string{"(" + cstr("<metrics.go unreadable>") + ", 0, [])"}
+	}
+	for _, d := range mf.Decls {
+		gd, ok := d.(*ast.GenDecl)
+		if !ok || gd.Tok != token.VAR {
+			continue
+		}
+		for _, sp := range gd.Specs {
+			vs := sp.(*ast.ValueSpec)
+			for i, n := range vs.Names {
+				if i >= len(vs.Values) {
+					continue
+				}
+				labels := -1
+				ast.Inspect(vs.Values[i], func(x ast.Node) bool {
+					if kv, ok := x.(*ast.KeyValueExpr); ok && ident(kv.Key) == "Labels" {
+						if cl, ok := kv.Value.(*ast.CompositeLit); ok {
+							labels = len(cl.Elts)
+						}
+					}
+					return true
+				})
+				if labels >= 0 {
+					decl[n.Name] = labels
+					order = append(order, n.Name)
+				}
+			}
+		}
+	}
+	uses := map[string][]string{}
+	ms, _ := filepath.Glob(filepath.Join(dir, "*.go"))
+	for _, m := range ms {
+		if strings.HasSuffix(m, "_test.go") {
+			continue
+		}
+		f, err := parser.ParseFile(fset, m, nil, 0)
+		if err != nil {
+			continue
+		}
+		ast.Inspect(f, func(x ast.Node) bool {
+			c, ok := x.(*ast.CallExpr)
+			if !ok {
+				return true
+			}
+			v, meth := sel(c.Fun)
+			if _, known := decl[v]; !known {
+				return true
+			}
+			n := len(c.Args)
+			if c.Ellipsis.IsValid() {
+				n = 99 // a spread slice: arity not visible
+			} else if meth == "Observe" || meth == "Add" {
+				n--
+			}
+			uses[v] = append(uses[v], strconv.Itoa(n))
+			return true
+		})
+	}
+	var rows []string
+	for _, n := range order {
+		rows = append(rows, fmt.Sprintf("(%s, %d, %s)", cstr(n), decl[n], clist(uses[n])))
+	}
+	return rows
+}
+
 // ------------------------------------------------------------------------------------------ main
 func recvType(fd *ast.FuncDecl) string {
 	if fd.Recv == nil || len(fd.Recv.List) != 1 {
@@ -1287,6 +1359,8 @@ func main() {
 	emit("construction_table", "(string * list string)", optRows)
 	fmt.Println("(* how the go-redis client of an address is created: clientmanager.go, clustermanager.go *)")
 	emit("client_table", "clientrow", clientRows)
+	fmt.Println("(* metrics.go / hook.go: declared labels of every metric vector, label values passed at every use *)")
+	emit("metrics_table", "(string * nat * list nat)", metricsRows(fset, dir))
 	fmt.Println("(* scriptcache.go, statement by statement *)")
 	emit("scriptcache_table", "(string * list string)", bodyRows)
 }
